@@ -367,6 +367,11 @@ class TransferManager(BaseManager):
             self._transfers.remove(transfer)
             await self._event_bus.emit(TransferRemovedEvent(transfer))
 
+        # The management cycle only considers the users of the transfers that
+        # are still in the list: untrack the user if this was the last transfer
+        if not any(other.username == transfer.username for other in self._transfers):
+            await self._user_manager.untrack_user(transfer.username, TrackingFlag.TRANSFER)
+
         self.request_management_cycle(_RequestFlag.TRANSFER_CHANGE)
 
     def get_uploads(self) -> list[Transfer]:
